@@ -174,13 +174,69 @@ static uint32_t pick_k(Rng& r) {
   return static_cast<uint32_t>(r.range(20, 500));
 }
 
+// Assign the monitored sketch over sketches in other states (copy, a = b = c chain, self through a reference,
+// move), observe the targets against the SOURCE's model, then apply identical updates under the same pinned
+// seed to source and target: bookkeeping and samples must stay equal.  Returns false if the library threw.
+static std::unique_ptr<EB> make_other(Rng& r) {
+  const uint32_t k = pick_k(r);
+  std::unique_ptr<EB> t(new EB(k));
+  uint64_t n2 = 0;
+  switch (r.below(3)) { case 0: n2 = 0; break; case 1: n2 = r.below(k + 1); break; default: n2 = std::min<uint64_t>(400, k + 1 + r.below(3ull * k + 1)); break; }
+  for (uint64_t i = 0; i < n2; ++i) { const double w = 0.01 + 10 * r.unit(); t->update(new_id(w), w); }
+  count(n2 == 0 ? "assign_target_empty" : (n2 <= k ? "assign_target_n_le_k" : "assign_target_n_gt_k"));
+  return t;
+}
+static bool same_state(const EB& a, const EB& b, uint64_t seed) {
+  if (a.get_n() != b.get_n() || a.get_k() != b.get_k() || a.get_cumulative_weight() != b.get_cumulative_weight() || a.get_c() != b.get_c()) return false;
+  random_utils::rand.seed(seed); const auto x = a.get_result();
+  random_utils::rand.seed(seed); const auto y = b.get_result();
+  if (x != y) return false;
+  random_utils::rand.seed(seed); std::vector<uint64_t> p; for (auto it = a.begin(); it != a.end(); ++it) p.push_back(*it);
+  random_utils::rand.seed(seed); std::vector<uint64_t> q; for (auto it = b.begin(); it != b.end(); ++it) q.push_back(*it);
+  return p == q;
+}
+static bool assignment_probe(Rng& r, Live& L) {
+  const std::string ctx0 = "k=" + std::to_string(L.m.k) + " n=" + std::to_string(L.m.n) + (L.m.merged ? " (merged)" : "");
+  try {
+    std::unique_ptr<EB> t = make_other(r);
+    const uint64_t kind = r.below(4);
+    if (kind == 0) { *t = *L.sk; count("assign_copy"); observe(*t, L.m, "copy assignment (target)", 2); }
+    else if (kind == 1) {
+      std::unique_ptr<EB> t2 = make_other(r);
+      *t = *t2 = *L.sk; count("assign_chain");
+      observe(*t2, L.m, "chained copy assignment (middle)", 1); observe(*t, L.m, "chained copy assignment (left)", 1);
+    } else if (kind == 2) {
+      EB& ref = *L.sk; *L.sk = ref; count("assign_self");
+      observe(*L.sk, L.m, "self copy assignment", 2);
+      *t = *L.sk; observe(*t, L.m, "copy assignment after self assignment", 1);
+    } else { EB tmp(*L.sk); *t = std::move(tmp); count("assign_move"); observe(*t, L.m, "move assignment (target)", 2); }
+    observe(*L.sk, L.m, "assignment (source must be unchanged)", 1);
+    VF_CHECK(same_state(*L.sk, *t, r.next()), "sketch|assignment|target-differs-from-source", ctx0);
+    const uint64_t cnt = 1 + r.below(std::min<uint64_t>(150, 2ull * L.m.k + 5));
+    const double scale = L.m.n ? static_cast<double>(L.m.cum / L.m.n) : 1.0;
+    std::vector<std::pair<uint64_t, double>> seq;
+    for (uint64_t i = 0; i < cnt; ++i) { const double w = scale * (r.chance(0.1) ? 5 + 20 * r.unit() : 0.05 + 2 * r.unit()); if (w > 0 && std::isfinite(w)) seq.emplace_back(new_id(w), w); }
+    const uint64_t X = r.next();
+    random_utils::rand.seed(X); for (auto& q : seq) L.sk->update(q.first, q.second);
+    random_utils::rand.seed(X); for (auto& q : seq) t->update(q.first, q.second);
+    for (auto& q : seq) L.m.add(q.first, q.second);
+    VF_CHECK(same_state(*L.sk, *t, r.next()), "sketch|assignment|diverges-from-source-under-identical-updates", ctx0 + " updates=" + std::to_string(seq.size()));
+    observe(*t, L.m, "identical updates after assignment (target)", 2);
+    count("assign_continued_equal");
+    if (r.coin()) L.sk = std::move(t);
+  } catch (const std::exception& e) { checked(); fail("sketch|assignment|throws", ctx0 + " what=" + e.what()); return false; }
+  return true;
+}
+
 // feed `cnt` updates; returns false when the library threw on a valid weight
 static bool feed(Rng& r, Live& L, WGen& g, uint64_t cnt, uint64_t& pos, bool hostile, uint64_t obs_every) {
   const double inf = std::numeric_limits<double>::infinity();
   for (uint64_t j = 0; j < cnt; ++j, ++pos) {
     if (hostile && r.chance(0.02)) {
-      const uint64_t op = r.below(10);
-      if (op < 3) {
+      const uint64_t op = r.below(12);
+      if (op >= 10) {
+        if (!assignment_probe(r, L)) return false;
+      } else if (op < 3) {
         const uint64_t id = new_id(0.0);
         try { L.sk->update(id, r.coin() ? 0.0 : -0.0); } catch (const std::exception& e) { checked(); fail("sketch|update|zero-weight-throws", e.what()); }
         count("zero_weight_updates"); observe(*L.sk, L.m, "zero-weight update", 1);
@@ -284,6 +340,7 @@ static void explore_case(Rng& r) {
       A.m.k = A.sk->get_k();   // a k mismatch has been reported once; do not let it cascade into every later clause
       observe(*A.sk, A.m, "merge", 3);
       if (!rvalue) observe(*B.sk, before_arg, "being merged from (lvalue argument must be unchanged)", 1);
+      if (r.chance(0.25)) { describe(md + " then assignment probe"); if (!assignment_probe(r, A)) return; count("assign_after_merge"); }
       // keep streaming into the merged sketch
       if (r.chance(0.6)) {
         const uint64_t extra = 1 + r.below(3ull * A.m.k + 10);
